@@ -221,7 +221,7 @@ def check_C14(ctx):
                 "A case is one input under all vectors, or one history.")
     q = ctx.quick()
     n = 150 if q else 1200
-    inputs = "fixtures,dwarfed:%d,gen:%d,gen:%d:stable" % (n // 5, n, n // 3)
+    inputs = "fixtures,badnames,dwarfed:%d,gen:%d,gen:%d:stable" % (n // 5, n, n // 3)
     trace = os.path.join(ctx.work, "config.ndjson")
     wv(["trace-config", "inputs=" + inputs, "seed=%d" % ctx.seed, "out=" + trace])
     r, cases = judge_trace(ctx, "Trace_Config", trace, slim=lambda c: {"id": c["id"], "source": c["source"]})
@@ -746,9 +746,16 @@ def locals_oracle(ctx, prop):
     cfg = write_cfg("MC_Locals_gen", open(os.path.join(SPEC, "MC_Locals.cfg")).read().replace("MaxLocals = 4", "MaxLocals = %d" % (3 if q else 4)))
     model_check(ctx, "MC_Locals", cfg=cfg, workers=8, label="design-locals")
     raw = os.path.join(ctx.work, "locals_hist.txt")
-    cfg = write_cfg("Enum_Locals_gen", open(os.path.join(SPEC, "Enum_Locals.cfg")).read().replace("MaxUses = 3", "MaxUses = %d" % (3 if q else 4)))
-    r = tlc("MC_Locals", cfg=cfg, workers=8, cont=False, capture=("CASE", raw), name="enum-locals")
+    cfg = write_cfg("Enum_Locals_gen", open(os.path.join(SPEC, "Enum_Locals.cfg")).read().replace("MaxUses = 3", "MaxUses = %d" % 3))
+    r = tlc("MC_Locals", cfg=cfg, workers=8, cont=False, capture=("CASE", raw + ".all"), name="enum-locals")
     ctx.add_mc(r, "enum-locals-behaviours")
+    import zlib
+    allb = [l for l in open(raw + ".all")]
+    budget = 30000 if q else 300000
+    keep = allb if len(allb) <= budget else [l for l in allb if (zlib.crc32(l.encode()) + ctx.seed) % max(1, len(allb) // budget) == 0]
+    with open(raw, "w") as f:
+        f.writelines(keep)
+    ctx.notes["locals_behaviours"] = {"enumerated": len(allb), "replayed": len(keep)}
     trace = os.path.join(ctx.work, "locals.ndjson")
     wv(["trace-locals", "histories=" + raw, "out=" + trace])
     os.environ["PROPERTY"] = prop
